@@ -62,6 +62,7 @@ Definition literal_code (p : prim) : str :=
       if str_eqb k (s "float64") && str_eqb t (s "+Inf") then s "func() float64 { var z float64; return 1 / z }()"
       else if str_eqb k (s "float64") && str_eqb t (s "-Inf") then s "func() float64 { var z float64; return -1 / z }()"
       else if str_eqb k (s "float64") && str_eqb t (s "NaN") then s "func() float64 { var z float64; return z / z }()"
+      else if str_eqb k (s "float64") && str_eqb t (s "-0") then s "func() float64 { var z float64; return -z }()"
       else if str_eqb k (s "float64") && huge_float_text t then k ++ s "(" ++ exp_form t ++ s ")"
       else export p
   | _ => export p
